@@ -87,7 +87,7 @@ claim("C15",
       "ContainsTime is compared with the documented meaning for every accepted interval specification (up to 1-2 ranges per field, each field possibly absent, symbolic bounds) and for every "
       "minute of the years 1970..2099: the instant is an abstract Gregorian date-time whose components are symbolic and tied together exactly (month lengths, leap years, weekday, Unix seconds). "
       "The mute/active stages are run with the real Intervener at an arbitrary tick.",
-      "Bounds: 1 range per field (quick) / 2 (thorough), years 1970..2099 (the century leap exceptions are outside); interval location absent, any fixed offset within +-14h, or a zone with one transition (spring-forward / fall-back at a fixed instant of 2024, instants of that year); the tz database itself is outside. Go's calendar arithmetic is trusted; "
+      "Bounds: 1 range per field (thorough: 2 for times and days of month), years 1970..2099 (the century leap exceptions are outside); interval location absent, any fixed offset within +-14h, or a zone with one transition (spring-forward / fall-back at a fixed instant of 2024, instants of that year); the tz database itself is outside. Go's calendar arithmetic is trusted; "
       "the engine's calendar model is cross-checked natively on every sampled path. The HH:MM and name parsers and YAML are outside. " + TRUSTED, "4 C15")
 claim("C16",
       "The UTF-8 matcher lexer/parser is executed on an arbitrary buffer of up to 4 (quick) / 6 (thorough) symbolic bytes: no panic, termination within the unwinding bound; printing a matcher "
@@ -102,8 +102,9 @@ claim("C17",
       "the print->load round trip, and the fallible-work-first ordering of app.reloader. Bounds: <=3 route nodes, 18 node shapes, 5 receiver lists, 6 interval lists. The coordinator harness replaces LoadFile by a symbolic outcome (engine only). " + TRUSTED, "4 C17")
 claim("C18",
       "Histories of submissions, heartbeats, expiry and GC under a per-alert-name limit 1..3 on the real store+limit.Bucket code with symbolic end times (limit invariant, "
-      "re-sends accepted, refusals reported, GC only removes resolved); silence count/size limits through the real Set (create, in-place edit, replacing edit) incl. 'rejected leaves state untouched'.",
-      "Bounds: limit<=3, <=2N+3 operations, 3 silences. GET concurrency limiter (HTTP) is outside. " + TRUSTED, "4 C18")
+      "re-sends accepted, refusals reported, GC only removes resolved); silence count/size limits through the real Set (create, in-place edit, replacing edit) incl. 'rejected leaves state untouched'; "
+      "the GET concurrency limiter with 2-4 concurrent GET/POST requests against a busy handler (at most L GETs inside, the rest 503 at once and counted, POSTs never refused, slots released).",
+      "Bounds: limit<=3, <=2N+3 operations (two GC rounds in the thorough tier), 3 silences, GET limit 1-2 with <=5 requests, preemption bound 1/2. The HTTP server and TimeoutHandler around the limiter are outside. " + TRUSTED, "4 C18")
 
 claim("C19",
       "Receive path of the real cluster delegate on full-state messages with up to 3 parts (registered/unknown keys, well-formed/malformed payloads, any order), single updates, "
